@@ -24,6 +24,8 @@ Inductive op :=
 | OpSubscribe (id : nat)      (* Client.Subscribe after a successful CreateSubscription answer with this id *)
 | OpForget (id : nat)         (* Client.ForgetSubscription = first half of Subscription.Cancel *)
 | OpRecreate (id : nat)       (* Client.recreateSubscription (monitor goroutine): Lock; forget; create; register; Unlock *)
+| OpConsume                   (* the application goroutine that reads Subscription.Notifs: it calls an API that takes subMux
+                                 (SubscriptionIDs, Subscribe, Cancel, ...) and then receives one notification *)
 | OpPause                     (* monitor: c.pauseSubscriptions(ctx) on disconnect *)
 | OpResume.                   (* monitor: c.resumeSubscriptions(ctx) after the reconnect *)
 
@@ -38,12 +40,14 @@ Inductive pc :=
 | RecreatePause (id : nat)    (* holds subMux; forgetSubscription_NeedsSubMuxLock pausing *)
 | RecreateRegister (id : nat) (* holds subMux; register again, Unlock *)
 | MonPause | MonResume
+| ConsumeLock                 (* consumer: before the subMux acquisition of its API call *)
+| ConsumeRecv                 (* consumer: API call returned; receiving from Notifs *)
 | Done.
 
 Definition start (P : params) (o : op) : pc :=
   match o with
   | OpSubscribe id => if subscribe_signals_after P then SubLock id else SubSignal id | OpForget id => ForgetLock id | OpRecreate id => RecreateLock id
-  | OpPause => MonPause | OpResume => MonResume
+  | OpPause => MonPause | OpResume => MonResume | OpConsume => ConsumeLock
   end.
 
 Definition holds_lock (p : pc) : bool :=
@@ -54,9 +58,12 @@ Inductive loop_pc :=
 | LPaused                     (* the inner select *)
 | LInPublish                  (* PublishRequest sent, waiting for the answer *)
 | LWantLock                   (* answer received: c.subMux.Lock() *)
+| LWantLockData (sub : nat)    (* the same, and the NotificationMessage carries data for this subscription *)
+| LNotifying                  (* subMux released; notifySubscription: sending on Subscription.Notifs (blocks until the
+                                 application receives) *)
 | LWantPause.                 (* publish returned an error: c.pauseSubscriptions(ctx) *)
 
-Inductive pub_outcome := POk | PErr | PTimeout.
+Inductive pub_outcome := POk | PData (sub : nat) | PErr | PTimeout.   (* keep-alive / data notification / error / timeout *)
 
 Record state := {
   pausech : nat; resumech : nat;
@@ -176,6 +183,16 @@ Definition step_api (P : params) (s : state) (i : nat) : option state :=
         | Some r => Some {| pausech := pausech s; resumech := r; mux := mux s; subs := subs s; loop := loop s;
                             script := script s; threads := upd (threads s) i Done; resumed := resumed s |}
         end
+    | ConsumeLock =>
+        (* an API call of the consumer: takes subMux (read or write) for a moment *)
+        match mux s with Some _ => None | None => Some (set_thread s i ConsumeRecv) end
+    | ConsumeRecv =>
+        (* <-Notifs: possible when the loop is sending *)
+        match loop s with
+        | LNotifying => Some {| pausech := pausech s; resumech := resumech s; mux := mux s; subs := subs s; loop := LTop;
+                                script := script s; threads := upd (threads s) i Done; resumed := resumed s |}
+        | _ => None
+        end
     | Done => None
     end
   end.
@@ -213,12 +230,20 @@ Definition step_loop (P : params) (s : state) (a : loop_act) : option state :=
       match script s with
       | [] => None                                    (* withheld *)
       | POk :: rest => Some (set_loop s LWantLock (pausech s) (resumech s) rest)
+      | PData id :: rest => Some (set_loop s (LWantLockData id) (pausech s) (resumech s) rest)
       | PErr :: rest => Some (set_loop s LWantPause (pausech s) (resumech s) rest)
       | PTimeout :: rest => Some (set_loop s LTop (pausech s) (resumech s) rest)
       end
   | LWantLock, Handle =>
       match mux s with
       | None => Some (set_loop s LTop (pausech s) (resumech s) (script s))   (* Lock; handleAcks; handleNotification; Unlock; notify *)
+      | Some _ => None
+      end
+  | LWantLockData id, Handle =>
+      match mux s with
+      | None =>
+          (* Lock; handleAcks; unknown subscription -> Unlock, return; else handleNotification; Unlock; then notify *)
+          Some (set_loop s (if mem_id id (subs s) then LNotifying else LTop) (pausech s) (resumech s) (script s))
       | Some _ => None
       end
   | LWantPause, SelfPause =>
@@ -252,7 +277,9 @@ Inductive reachable (P : params) (s0 : state) : state -> Prop :=
 | reach_init : reachable P s0 s0
 | reach_step : forall s a s', reachable P s0 s -> step P s a = Some s' -> reachable P s0 s'.
 
-Definition api_finished (s : state) : bool := forallb (fun p => match p with Done => true | _ => false end) (threads s).
+(* receiving from Notifs is not an API call: a consumer that waits for a notification counts as finished *)
+Definition api_finished (s : state) : bool :=
+  forallb (fun p => match p with Done | ConsumeRecv => true | _ => false end) (threads s).
 
 (* a thread that has not finished and cannot move; the loop counts as stuck when it wants the lock or wants to signal
    and cannot (being paused with empty channels, or waiting for a withheld answer, is not "stuck") *)
@@ -261,7 +288,7 @@ Definition can_step_api (P : params) (s : state) (i : nat) : bool :=
 
 Definition loop_stuck (P : params) (s : state) : bool :=
   match loop s with
-  | LWantLock => match step_loop P s Handle with Some _ => false | None => true end
+  | LWantLock | LWantLockData _ => match step_loop P s Handle with Some _ => false | None => true end
   | LWantPause => match step_loop P s SelfPause with Some _ => false | None => true end
   | LTop => match enabled P s with [] => negb (api_finished s) | _ => false end
   | _ => false
@@ -289,18 +316,21 @@ Definition pc_eqb (a b : pc) : bool :=
   match a, b with
   | SubSignal x, SubSignal y | SubLock x, SubLock y | ForgetLock x, ForgetLock y | RecreateLock x, RecreateLock y
   | RecreatePause x, RecreatePause y | RecreateRegister x, RecreateRegister y => x =? y
-  | ForgetPause, ForgetPause | ForgetUnlock, ForgetUnlock | SubSignalHeld, SubSignalHeld | MonPause, MonPause | MonResume, MonResume | Done, Done => true
+  | ForgetPause, ForgetPause | ForgetUnlock, ForgetUnlock | SubSignalHeld, SubSignalHeld | MonPause, MonPause
+  | ConsumeLock, ConsumeLock | ConsumeRecv, ConsumeRecv | MonResume, MonResume | Done, Done => true
   | _, _ => false
   end.
 
 Definition loop_eqb (a b : loop_pc) : bool :=
   match a, b with
-  | LTop, LTop | LPaused, LPaused | LInPublish, LInPublish | LWantLock, LWantLock | LWantPause, LWantPause => true
+  | LTop, LTop | LPaused, LPaused | LInPublish, LInPublish | LWantLock, LWantLock | LWantPause, LWantPause
+  | LNotifying, LNotifying => true
+  | LWantLockData x, LWantLockData y => x =? y
   | _, _ => false
   end.
 
 Definition pub_eqb (a b : pub_outcome) : bool :=
-  match a, b with POk, POk | PErr, PErr | PTimeout, PTimeout => true | _, _ => false end.
+  match a, b with POk, POk | PErr, PErr | PTimeout, PTimeout => true | PData x, PData y => x =? y | _, _ => false end.
 
 Fixpoint list_eqb {A} (eq : A -> A -> bool) (a b : list A) : bool :=
   match a, b with
